@@ -787,6 +787,17 @@ MUTANTS = [
       "            log_l = np.concatenate(self.log_l)\n            log_v = np.repeat(\n                self.shell_log_v - np.log(np.maximum(self.shell_n, 1)),\n                self.shell_n)\n            log_v_live", 'C02 C12'),
     M('fixed-value-sized-from-first-column', PR, "np.ones(phys_points.shape[:-1]) * dist",
       "np.ones(phys_points[..., 0].shape) * dist", 'C15'),
+    M('range-length-test-inverted', PR, "            if len(dist) != 2:", "            if len(dist) == 2:", 'C15'),
+    M('range-order-admits-equal', PR, "            if not dist[0] < dist[1]:", "            if not dist[0] <= dist[1]:", 'C15'),
+    M('range-order-test-inverted', PR, "            if not dist[0] < dist[1]:", "            if dist[0] < dist[1]:", 'C15'),
+    M('optional-cube-written-unguarded', U,
+      "        if self.cube is not None:\n            self.cube.write(group.create_group('cube'))",
+      "        self.cube.write(group.create_group('cube'))", 'C09'),
+    M('optional-shift-inverted-unguarded', N,
+      "            if self.shift is not None:\n                points = self.shift.transform(points, inverse=True)",
+      "            points = self.shift.transform(points, inverse=True)", 'C09'),
+    M('legacy-block-rule-differs', U, "                len(points) < 2 * bound.n_points_min for points in",
+      "                len(points) < bound.n_points_min for points in", 'C13'),
     M('job-returns-the-caller', N,
       "        bound.sample(n_points=n_points, return_points=False)\n        return bound\n",
       "        bound.sample(n_points=n_points, return_points=False)\n        return self\n", 'C08 C03'),
@@ -828,6 +839,10 @@ BENIGN = [
       "        if not isinstance(discard_exploration, bool):\n            raise TypeError(\"'discard_exploration' must be a bool.\")\n\n        t_start = time()", ALL),
     M('fixed-value-np-full', PR, "np.ones(phys_points.shape[:-1]) * dist",
       "np.full(phys_points.shape[:-1], dist, dtype=float)", ALL),
+    M('range-order-swapped-operands', PR, "            if not dist[0] < dist[1]:", "            if dist[1] <= dist[0]:", ALL),
+    M('range-length-positive-form', PR,
+      "            if len(dist) != 2:\n                raise ValueError(",
+      "            if not len(dist) == 2:\n                raise ValueError(", ALL),
     M('job-copy-renamed', N,
       "        bound = copy.deepcopy(self)\n        bound.reset(rng=rng)\n"
       "        bound.sample(n_points=n_points, return_points=False)\n        return bound\n",
